@@ -174,6 +174,20 @@ let () =
                 if expect <> "" && got <> expect then
                   fail step "C12" "prop"
                     (Printf.sprintf "sat_count(%d) as %s on the kept cache %d = %s, exact count %s (%s)" vars ty cid got expect (Z.to_string exact)));
+             (* (corr) theorem C12_sat_small_vars: BDD / BCDD with vars below the number of levels and no path longer
+                than vars: the integer types return #models * 2^vars / 2^levels without remainder (this covers
+                functions whose support is larger than vars, where the property itself says nothing) *)
+             if vars < n && kname <> "zbdd" && int_of_nat (Model.height_of ps.snap e.Model.eref) <= vars then (
+               stat "c12s_small_vars_height_ok" 1;
+               let ones = Array.fold_left (fun acc v -> acc + v) 0 ta in
+               let num = Z.shift_left (Z.of_int ones) vars in
+               let q = Z.shift_right num n in
+               if not (Z.equal (Z.shift_left q n) num) then
+                 fail step "C12" "corr" (Printf.sprintf "sat_count(%d): height <= vars but 2^levels does not divide #models * 2^vars (theorem C12_sat_small_vars)" vars)
+               else if (ty = "nat" || (ty = "u64" && vars < 64) || (ty = "u128" && vars < 128)) && got <> Z.to_string q then
+                 fail step "C12" "corr"
+                   (Printf.sprintf "sat_count(%d) as %s = %s, but no path visits more than %d nodes and #models * 2^vars / 2^levels = %s (theorem C12_sat_small_vars)"
+                      vars ty got vars (Z.to_string q)));
              (* (corr) the extracted model on its own copy of the cache *)
              let m = mgr_of ps in
              let p = cid_pos cid in
